@@ -41,9 +41,8 @@ def sib_terms(rep, A, M):
                 rep.ob("SIB/decode:%s" % nm, N.pkey(N.poly(x)) == N.pkey(N.poly(y)),
                        "decoded coordinate %s must be the same function of the input bytes in both builds\n%s" % (nm, "" if N.pkey(N.poly(x)) == N.pkey(N.poly(y)) else C.explain_poly_mismatch(N, x, y)),
                        where=A.where(pa), sample={"obligation": "SIB/decode:%s" % nm, "arkworks": N.show(N.poly(x), 3), "minimal": N.show(N.poly(y), 3)})
-        ga = sorted(repr(N.cond(pc[-1])) for pc, _ in ea)
-        gm = sorted(repr(N.cond(pc[-1])) for pc, _ in em)
-        rep.ob("SIB/decode:guards", ga == gm, "both builds must reject under the same conditions (%d vs %d canonical guards)" % (len(ga), len(gm)), where=A.where(pa))
+        same, wit = C.same_boolean_function(N, [pc for pc, _ in ka], [pc for pc, _ in km])
+        rep.ob("SIB/decode:guards", same, "both builds must accept under the same condition, as a boolean function of the same atoms (order and grouping of the checks free): %s" % (wit,), where=A.where(pa))
         eva = {Tm.show(v, maxdepth=3) for _, v in ea}
         evm = {Tm.show(v, maxdepth=3) for _, v in em}
         rep.ob("SIB/decode:errors", eva == evm, "same error values: %s vs %s" % (sorted(eva), sorted(evm)), nontrivial=False)
